@@ -164,4 +164,32 @@ theorem preimageOf_field {e : Entry} {r : Rec} {e' : Entry} {r' : Rec} (hw : WF 
   obtain ⟨it, hit, hf⟩ := hc
   exact item_inj hw hw' (hok it hit) hf (preimageOf_inj hw hw' items hok h it hit)
 
+/-- under `itemOK`, what an item writes depends only on the hashed fields -/
+theorem encItem_congr {e : Entry} {r : Rec} {e' : Entry} {r' : Rec} (h : SemEq e r e' r')
+    {it : Item} (hok : itemOK it = true) : encItem e r it = encItem e' r' it := by
+  obtain ⟨h1, h2, h3, h4, h5, h6, h7, h8, h9, h10, h11, h12, h13, h14, h15⟩ := h
+  cases it with
+  | tag bs => rfl
+  | u64 f => cases f <;> simp [itemOK, u64Fld] at hok <;> simp [encItem, natOf, *]
+  | arr32 f => cases f <;> simp [itemOK] at hok <;> simp [encItem, bytesOf, *]
+  | u8 f => cases f <;> simp [itemOK] at hok <;> simp [encItem, natOf, *]
+  | flag f t el =>
+    cases f <;> simp [itemOK] at hok
+    have hb : boolOf e r Fld.rSyncOnce = boolOf e' r' Fld.rSyncOnce := h11
+    simp only [encItem, hb]
+  | lenBytes f => cases f <;> simp [itemOK] at hok <;> simp [encItem, bytesOf, *]
+
+theorem preimageOf_congr {e : Entry} {r : Rec} {e' : Entry} {r' : Rec} (h : SemEq e r e' r') :
+    ∀ (items : List Item), (∀ it ∈ items, itemOK it = true) → preimageOf items e r = preimageOf items e' r' := by
+  intro items
+  induction items with
+  | nil => intro _; rfl
+  | cons a rest ih =>
+    intro hok
+    simp only [preimageOf, List.flatMap_cons]
+    rw [encItem_congr h (hok a (by simp))]
+    have := ih (fun x hx => hok x (List.mem_cons_of_mem _ hx))
+    simp only [preimageOf] at this
+    rw [this]
+
 end WK.C05
